@@ -341,7 +341,21 @@ def main(argv):
     runner = Runner(c, binary)
     res, herr = runner.harness(cases, conc)
     if res is None:
-        c.fail_obligation("harness-run", herr)
+        # the harness process died (a panic in the kernel goroutine cannot be recovered): bisect for the case
+        pool, is_conc = (cases, False)
+        r0, _ = runner.harness(cases, [])
+        if r0 is not None:
+            pool, is_conc = (conc, True)
+        while len(pool) > 1:
+            half = pool[:len(pool) // 2]
+            rh, _ = runner.harness([] if is_conc else half, half if is_conc else [])
+            pool = half if rh is None else pool[len(pool) // 2:]
+        rh, herr1 = runner.harness([] if is_conc else pool, pool if is_conc else [])
+        if pool and rh is None:
+            c.report("crash:" + sig(pool[0]), "the real gtxbuf code crashed the process on this case: " + " ".join(herr1[-300:].split()),
+                     {("conc" if is_conc else "cases"): pool, "stderr": herr1[-1500:]})
+        else:
+            c.fail_obligation("harness-run", herr)
         c.finish()
     for grp in ("direct", "api", "conc"):
         for r in res[grp] or []:
